@@ -277,3 +277,48 @@ pers_harness!(c03_o4_short_write_rolled_back, c03_o4_short_write_rolled_back__wi
 pers_harness!(c03_o4_failed_fsync_rolled_back, c03_o4_failed_fsync_rolled_back__witness, fsync_fails_body, 50);
 pers_harness!(c03_o4_rollback_failure_surfaces, c03_o4_rollback_failure_surfaces__witness, rollback_fails_body, 50);
 pers_harness!(c03_o4_retry_after_rollback, c03_o4_retry_after_rollback__witness, retry_body, 50);
+
+// ---------------------------------------------------------------------------------------------
+// C03 O3.4 (batch): a failed batch append is all-or-nothing
+// ---------------------------------------------------------------------------------------------
+fn batch_body(witness: bool) {
+    let mut w = new_writer(FsyncPolicy::Always);
+    let e1 = any_entry();
+    let r1 = w.append_internal(&e1);
+    let ok1 = r1.is_ok();
+    std::mem::forget(r1);
+    assert!(ok1);
+    let stable_offset = w.bytes_written;
+    let stable_count = w.entry_count;
+    let batch = vec![any_entry()];
+    // fault on the batch: 0 = the only frame is cut after `short` bytes; 1 = frames written, fsync fails
+    let kind: u8 = kani::any();
+    kani::assume(kind < 2);
+    let short: usize = kani::any();
+    kani::assume(short < FRAME_EMPTY);
+    unsafe {
+        if kind == 0 {
+            vfs::FAULTS.write_fail_at = vfs::COUNTERS.writes;
+            vfs::FAULTS.write_short = short;
+        } else {
+            vfs::FAULTS.sync_fail_at = vfs::COUNTERS.syncs;
+        }
+    }
+    let r2 = w.append_batch_internal_with_rollback(&batch, stable_offset, stable_count);
+    let ok2 = r2.is_ok();
+    std::mem::forget(r2);
+    let st = vfs::state(0);
+    if witness {
+        kani::cover!(!ok2 && kind == 1, "batch with failed fsync reported");
+        std::mem::forget(batch);
+        std::mem::forget(w);
+        return;
+    }
+    assert!(!ok2, "C03: a batch append that hit a fault is never acknowledged");
+    assert!(st.len == stable_offset as usize, "C03: failed batch: no frame of the batch stays in the log");
+    assert!(w.bytes_written == stable_offset && w.entry_count == stable_count && frame_ok(4, &e1), "C03: failed batch: counters restored, earlier frame untouched");
+    std::mem::forget(batch);
+    std::mem::forget(w);
+}
+
+pers_harness!(c03_o4_batch_all_or_nothing, c03_o4_batch_all_or_nothing__witness, batch_body, 50);
